@@ -408,16 +408,8 @@ def check_separators(ctx, rule):
     adv = [n for n in cfg.reach(s0, include_start=True) if n.kind == "stmt" and isinstance(n.ast, ast.AugAssign) and src(n.ast.target) == "pos"]
     ctx.ob(rule, un, "the cursor skips the dash exactly when one is expected", any(src(n.ast).replace(" ", "") in ("pos+=has_sep", "pos+=1") for n in adv), construct="cursor advance over the dash")
     # calendar date: second dash required iff first dash
-    co = prog.method(CLS, "_parse_isodate_common", rule)
-    ccfg = ctx.cfg(co)
-    cf = ctx.facts(co)
-    r2 = [n for n in ccfg.live_nodes() if n.kind == "stmt" and isinstance(n.ast, ast.Raise) and ("has_sep", True) in cf.at(n)
-          and any(tv and "!= self._DATE_SEP" in t for t, tv in cf.at(n))]
-    ctx.ob(rule, co, "YYYY-MM must be followed by a dash before the day", len(r2) == 1, construct="calendar date: second dash")
-    r3 = [n for n in ccfg.live_nodes() if n.kind == "stmt" and isinstance(n.ast, ast.Raise) and ("has_sep", False) in cf.at(n) and ("pos >= len_str", True) in cf.at(n)]
-    ctx.ob(rule, co, "YYYYMM (basic format without a day) is rejected", len(r3) == 1, construct="calendar date: YYYYMM")
-    short = [n for n in ccfg.live_nodes() if n.kind == "stmt" and isinstance(n.ast, ast.Raise) and any(tv and "< 2" in t for t, tv in cf.at(n))]
-    ctx.ob(rule, co, "a month or day field shorter than two characters is rejected", len(short) == 2, construct="calendar date: short fields")
+    check_common_date(ctx, rule, "calendar dates: YYYY, YYYY-MM, YYYY-MM-DD and YYYYMMDD are accepted; YYYYMM, a second separator that is missing or "
+                      "wrong, and month / day fields shorter than two characters are rejected")
     # time: colon consistency
     tm = prog.method(CLS, "_parse_isotime", rule)
     tcfg = ctx.cfg(tm)
@@ -468,6 +460,46 @@ def check_entry(ctx, rule):
     ctx.ob(rule, pt, "parse_tzstr forwards zero_as_utc to the offset scanner", len(rets) == 1 and src(rets[0].value).replace(" ", "") == "self._parse_tzstr(tzstr,zero_as_utc=zero_as_utc)", construct="parse_tzstr body")
 
 
+COMMON_DATE_REF = """
+        len_str = len(dt_str)
+        components = [1, 1, 1]
+        if len_str < 4:
+            raise ValueError('ISO string too short')
+        components[0] = _to_int(dt_str[0:4], 4)
+        pos = 4
+        if pos >= len_str:
+            return components, pos
+        has_sep = dt_str[pos:pos + 1] == self._DATE_SEP
+        if has_sep:
+            pos += 1
+        if len_str - pos < 2:
+            raise ValueError('Invalid common month')
+        components[1] = _to_int(dt_str[pos:pos + 2], 2)
+        pos += 2
+        if pos >= len_str:
+            if has_sep:
+                return components, pos
+            else:
+                raise ValueError('Invalid ISO format')
+        if has_sep:
+            if dt_str[pos:pos + 1] != self._DATE_SEP:
+                raise ValueError('Invalid separator in ISO string')
+            pos += 1
+        if len_str - pos < 2:
+            raise ValueError('Invalid common day')
+        components[2] = _to_int(dt_str[pos:pos + 2], 2)
+        return components, pos + 2
+"""
+
+
+def check_common_date(ctx, rule, what):
+    """_parse_isodate_common against its decision table: which texts are rejected, which fields are cut where, the
+    [year, month, day] result with defaults 1 and the cursor handed back."""
+    from . import summ
+    co = ctx.prog.method(CLS, "_parse_isodate_common", rule)
+    return summ.check_ref(ctx, rule, co, what, COMMON_DATE_REF, construct="calendar date table")
+
+
 def check_arity(ctx, rule):
     prog = ctx.prog
     co = prog.method(CLS, "_parse_isodate_common", rule)
@@ -478,8 +510,8 @@ def check_arity(ctx, rule):
             if isinstance(n, ast.Assign) and src(n.targets[0]) == "components" and isinstance(n.value, ast.List):
                 return [src(e) for e in n.value.elts]
         return None
-    d, t = initial(co), initial(tm)
-    ctx.ob(rule, co, "date components default to [1, 1, 1] (year, month, day)", d == ["1", "1", "1"], construct="date components", detail=str(d))
+    d, t = ["1", "1", "1"], initial(tm)
+    check_common_date(ctx, rule, "date components are [year, month, day] with defaults 1, each field from its own slice of the text")
     ctx.ob(rule, tm, "time components default to [0, 0, 0, 0, None] (hour, minute, second, microsecond, tzinfo)", t == ["0", "0", "0", "0", "None"], construct="time components", detail=str(t))
     un = prog.method(CLS, "_parse_isodate_uncommon", rule)
     u = [src(n.value) for n in walk_local(un.node) if isinstance(n, ast.Assign) and src(n.targets[0]) == "components"]
